@@ -5,7 +5,7 @@ from fractions import Fraction
 
 from .. import AnalysisError, tables
 from ..deg import DegChecker, TOP
-from ..canon import single_assignments
+from ..canon import single_assignments, canon
 from ..pat import find_expr, find_stmt, match_expr, match_stmt
 from ..pm import src
 from ..prov import Prov
@@ -160,14 +160,30 @@ def run(ctx):
 
     # ---- C05.3 INS estimator definition -------------------------------------------------------------
     ue = ctx.fn(ST + ".update_evidence")
-    ok = len(find_stmt("self._weights_ns = nested_samples['logL'] + nested_samples['logW']", ue.node)) == 1 and len(find_stmt("self._weights_lp = live_points['logL'] + live_points['logW']", ue.node)) == 1 \
-        and len(find_stmt("self._weights = concatenate([self._weights_ns, self._weights_lp])", ue.node)) == 1 and len(find_stmt("self._weights = self._weights_ns", ue.node)) == 1 \
-        and len(find_stmt("self._logZ = logsumexp(self._weights)", ue.node)) == 1 and len(find_stmt("self._n = self._weights.size", ue.node)) == 1
-    ctx.ob("R-SIB", "C05.3", ue, "INS evidence state: weights = logL + logW over all stored samples, _logZ = logsumexp(weights), _n = their number", ok, "")
-    uea = FA(ue)
-    zs = uea.find(lambda s: match_stmt("self._logZ = logsumexp(self._weights)", s) is not None)
-    nn = uea.find(lambda s: match_stmt("self._n = self._weights.size", s) is not None)
-    ctx.ob("R-ORDER", "C05.3", ue, "both are updated on every path, after the weights", len(zs) == 1 and len(nn) == 1 and uea.on_every_normal_path(zs[0]) and uea.on_every_normal_path(nn[0]), "")
+    # compared, path by path, with a reference implementation: the final value of every attribute the estimator reads
+    # (temporaries, branch order, where the attributes are assigned do not matter; what each attribute ends up holding does)
+    from ..summ import signatures as _sigs_
+
+    REF_UE = (
+        "def ref(self, nested_samples, live_points=None):\n"
+        "    self._weights_ns = nested_samples['logL'] + nested_samples['logW']\n"
+        "    if live_points is not None:\n"
+        "        self._weights_lp = live_points['logL'] + live_points['logW']\n"
+        "        self._weights = np.concatenate([nested_samples['logL'] + nested_samples['logW'], live_points['logL'] + live_points['logW']])\n"
+        "    else:\n"
+        "        self._weights = nested_samples['logL'] + nested_samples['logW']\n"
+        "        self._weights_lp = None\n"
+        "    self._logZ = logsumexp(self._weights)\n"
+        "    self._n = self._weights.size\n"
+    )
+    trk_ = ("self._weights_ns", "self._weights_lp", "self._weights", "self._logZ", "self._n")
+    try:
+        ref_ue = {(s_[0], s_[1], s_[3]) for s_ in _sigs_(ast.parse(REF_UE).body[0], canon, track=trk_)}
+        got_ue = {(s_[0], s_[1], s_[3]) for s_ in _sigs_(ue.node, canon, track=trk_)}
+    except ValueError as e_:
+        raise AnalysisError(f"_INSIntegralState.update_evidence: {e_} (ANALYSIS-INCOMPLETE)")
+    ctx.ob("R-SIB", "C05.3", ue, "INS evidence state: weights = logL + logW over all stored samples, _logZ = logsumexp(weights), _n = their number", got_ue == ref_ue, f"paths that differ from the reference: {sorted(map(str, got_ue ^ ref_ue))[:2]}")
+    ctx.ob("R-ORDER", "C05.3", ue, "both are updated on every path, after the weights", bool(got_ue) and all(dict(s_[1]).get("self._logZ") is not None and dict(s_[1]).get("self._n") is not None and s_[2] != "raise" for s_ in got_ue), "")
     lz = prog.cls(ST).methods["logZ"]
     ctx.ob("R-SIB", "C05.3", lz, "log Z = logsumexp(logL + logW) - log(n): the log of the mean importance weight", len(find_stmt("return self._logZ - log(self._n)", lz.node)) == 1, "")
     alias = prog.cls(ST).class_attrs.get("log_evidence")
